@@ -8,3 +8,22 @@ for f in sorted(glob.glob("/verif/evidence/*.json")):
     out[e["property_id"]] = {"obligations": e["coverage"].get("obligations", 0), "discharged": e["coverage"].get("discharged", 0)}
 json.dump(out, open("/verif/baseline/obligations.json", "w"), indent=1)
 print(out)
+
+# number of loops of every function under contract (invariants are attached by loop ordinal)
+import sys
+
+sys.path.insert(0, "/verif")
+from vf.prove import load_contracts  # noqa: E402
+from vf.pyvc import Exec  # noqa: E402
+from vf.source import Repo  # noqa: E402
+
+reg = load_contracts()
+repo = Repo("/repo")
+ex = Exec.__new__(Exec)
+loops = {}
+for q, c in reg.contracts.items():
+    fi = repo.funcs.get(q)
+    if fi is not None:
+        loops[q] = len(ex._loops_in_order(fi.node))
+json.dump(loops, open("/verif/baseline/loops.json", "w"), indent=1, sort_keys=True)
+print(len(loops), "functions with loop counts")
